@@ -1422,8 +1422,9 @@ class BaseSpaceImpl(*_base_space_impl_base):
 
         if refs is not None:
             for key, value in refs.items():
-                ReferenceImpl(self, key, value, container=self._own_refs,
-                              refmode="auto")
+                ref = ReferenceImpl(self, key, value,
+                                    container=self._own_refs, refmode="auto")
+                self.model.refmgr.track_ref(ref)
 
     def __getstate__(self):
         d = {attr: getattr(self, attr)
